@@ -323,13 +323,22 @@ def shrink(prop, model_mod, lines, sig):
     return cur
 
 
+def evidence_dir():
+    # mutant trials (harness/seedtest.py) redirect their output so that committed evidence stays
+    # the one produced against /repo itself
+    return pathlib.Path(os.environ.get('VERIF_EVIDENCE_DIR') or (VERIF / 'evidence'))
+
+
 def write_replay(pid, payload):
-    d = VERIF / 'evidence' / 'replay'
+    d = evidence_dir() / 'replay'
     d.mkdir(parents=True, exist_ok=True)
     h = hashlib.sha1(json.dumps(payload, sort_keys=True).encode()).hexdigest()[:10]
     f = d / f'{pid}-{h}.json'
     f.write_text(json.dumps(payload, indent=1))
-    return str(f.relative_to(VERIF))
+    try:
+        return str(f.relative_to(VERIF))
+    except ValueError:
+        return str(f)
 
 
 def correspondence(ctx, prop, model_mod, scenarios, label):
@@ -509,8 +518,8 @@ def write_evidence(ctx, prop, status):
         'wall_s': round(time.time() - ctx.t0, 2),
         'violations': 1 if status == 1 else 0,
     }
-    (VERIF / 'evidence').mkdir(exist_ok=True)
-    (VERIF / 'evidence' / f'{ctx.pid}.json').write_text(json.dumps(ev, indent=1, default=str))
+    evidence_dir().mkdir(parents=True, exist_ok=True)
+    (evidence_dir() / f'{ctx.pid}.json').write_text(json.dumps(ev, indent=1, default=str))
 
 
 def replay(pid, path):
